@@ -14,7 +14,7 @@ RULE = ('cases = conversation x turn x cut set (every single cut offset; every p
         'one-PDU-per-segment delivery of the same conversation; a case is non-trivial when at '
         'least one segment boundary falls strictly inside a PDU or one segment carries more than '
         'one PDU; distinct = distinct scheduler signatures (SHA-1 of the (role, seam) sequence)'
-        "; plus conversations with an unexpected PDU followed by the peer's A-ABORT in one turn and a turn of exactly the provider's receive size; compared per channel incl. progress after every turn")
+        "; plus conversations with an unexpected PDU followed by the peer's A-ABORT in one turn and a turn of exactly the provider's receive size; compared per channel incl. progress after every turn; corpus includes unknown/undecodable PDUs with further PDUs behind them")
 ASSUMPTIONS = ['TCP model: reliable ordered byte stream; loss/duplication/reordering not injected',
                'atomicity between seams (see DESIGN 10)',
                'local user is a deterministic function of the indications it receives']
